@@ -25,6 +25,8 @@ type c09Req struct {
 	w      *sim.SimWriter
 	events []string
 	resp   string
+	call   int64 // stamps of the simulator's global event order
+	ret    int64
 }
 
 type c09Scen struct {
@@ -40,6 +42,7 @@ type c09Scen struct {
 	Preempt    int         `json:"preempt_permille"`
 	Clients    [][]*c09Req `json:"clients"`
 	AddRoute   bool        `json:"admin_adds_route"`
+	DelRoute   bool        `json:"admin_removes_route_instead,omitempty"` // the admin task removes POST /a/x instead of adding PUT /a/x
 	Verbs      bool        `json:"custom_verb_routes,omitempty"` // POST /a/y/{id}:cancel and DELETE /a/x:purge are registered too
 }
 
@@ -70,6 +73,7 @@ func genC09(x *Ctx) *c09Scen {
 	sc.Preempt = []int{300, 100, 500}[tp.G(3)]
 	sc.AddRoute = tp.Chance(250)
 	sc.Verbs = tp.Chance(300)
+	sc.DelRoute = sc.AddRoute && tp.Bool()
 	maxReq := 4
 	if x.Thorough() {
 		maxReq = 8
@@ -83,12 +87,20 @@ func genC09(x *Ctx) *c09Scen {
 			if sc.Verbs && tp.Bool() {
 				r.Path = c09VerbURLs[tp.G(len(c09VerbURLs))]
 			}
+			focus := sc.AddRoute && tp.Chance(600) // the URL whose routable methods the admin task changes
+			if focus {
+				r.Path = []string{"/a/x", "/a/x", "/a/x/"}[tp.G(3)]
+			}
 			r.Origin = []string{"http://good.example", "http://good.example", "HTTP://Good.Example", "http://evil.example", ""}[tp.G(5)]
 			switch tp.G(4) {
 			case 0, 1: // preflight
 				r.Method = "OPTIONS"
 				r.ACRM = []string{"GET", "POST", "PUT", "DELETE", "PATCH", "get"}[tp.G(6)]
 				r.ACRH = []string{"", "X-Custom", "x-custom", "X-Custom, Accept", " accept ,X-CUSTOM", "X-Other", "X-Custom,X-Other", "Content-Type", "X-Custom,,X-Other", ",X-Other", "X-Custom, , Accept"}[tp.G(11)]
+				if focus && tp.Chance(700) {
+					r.ACRM = []string{"PUT", "POST"}[tp.G(2)]
+					r.ACRH = ""
+				}
 			case 2: // OPTIONS without a requested method: an actual request
 				r.Method = "OPTIONS"
 			case 3:
@@ -175,7 +187,9 @@ func c09BuildOpt(sc *c09Scen, byID map[int]*c09Req, extraRoute bool, withCORS bo
 		chain.ProcessFilter(req, resp)
 	})
 	wsA.Route(wsA.GET("/x").To(h("GET /a/x")))
-	wsA.Route(wsA.POST("/x").To(h("POST /a/x")))
+	if !(extraRoute && sc.DelRoute) {
+		wsA.Route(wsA.POST("/x").To(h("POST /a/x")))
+	}
 	wsA.Route(wsA.GET("/y").To(h("GET /a/y")))
 	wsA.Route(wsA.DELETE("/y/{id}").To(h("DELETE /a/y/{id}")))
 	// literal segments with regular-expression meta characters
@@ -185,7 +199,7 @@ func c09BuildOpt(sc *c09Scen, byID map[int]*c09Req, extraRoute bool, withCORS bo
 		wsA.Route(wsA.POST("/y/{id}:cancel").To(h("POST /a/y/{id}:cancel")))
 		wsA.Route(wsA.DELETE("/x:purge").To(h("DELETE /a/x:purge")))
 	}
-	if extraRoute {
+	if extraRoute && !sc.DelRoute {
 		wsA.Route(wsA.PUT("/x").To(h("PUT /a/x")))
 	}
 	wsB := new(restful.WebService).Path("/b")
@@ -261,14 +275,23 @@ func runC09(x *Ctx) {
 			for _, r := range cl {
 				t.Req = r.ID
 				t.Y(sim.SiteStart)
+				r.call = t.Stamp()
 				r.w, r.resp = r.serve(w.c, t)
+				r.ret = t.Stamp()
 			}
 		})
 	}
+	var adminCall, adminRet int64
 	if sc.AddRoute {
 		s.Go("admin", func(t *sim.Task) {
 			t.Y(sim.SiteAdminPre)
-			w.wsA.Route(w.wsA.PUT("/x").To(func(req *restful.Request, resp *restful.Response) { resp.Write([]byte("PUT /a/x")) }))
+			adminCall = t.Stamp()
+			if sc.DelRoute {
+				w.wsA.RemoveRoute("/a/x", "POST")
+			} else {
+				w.wsA.Route(w.wsA.PUT("/x").To(func(req *restful.Request, resp *restful.Response) { resp.Write([]byte("PUT /a/x")) }))
+			}
+			adminRet = t.Stamp()
 			t.Y(sim.SiteAdminPost)
 		})
 	}
@@ -311,6 +334,17 @@ func runC09(x *Ctx) {
 			continue
 		}
 		preflights++
+		// registration states that existed at some moment during this request: the one before the admin's
+		// change unless the request began after the change was complete, the one after it unless the
+		// request was over before the change began
+		oldOK, newOK := true, false
+		if sc.AddRoute {
+			newOK = r.ret > adminCall
+			oldOK = r.call < adminRet
+			if newOK && !oldOK {
+				x.Count("reach:preflight-after-route-change")
+			}
+		}
 		// (a) the filter answers alone
 		if len(r.events) > 0 {
 			x.Violate("preflight-reached-chain", "%s: later filters or the route function ran: %v", what, r.events)
@@ -374,8 +408,8 @@ func runC09(x *Ctx) {
 			if sc.AddRoute {
 				want2 = c09Routable(sc, byID, true, r.Path)[r.ACRM] && headersOK
 			}
-			if granted != want && granted != want2 {
-				x.Violate("computed-grant-differs-from-routable", "%s: granted=%v, but %s is routable at this URL: %v (headers allowed: %v)", what, granted, r.ACRM, want, headersOK)
+			if !((oldOK && granted == want) || (newOK && granted == want2)) {
+				x.Violate("computed-grant-differs-from-routable", "%s: granted=%v, but %s is routable at this URL: %v before / %v after the admin's route change (request ran before it: %v, after it: %v; headers allowed: %v)", what, granted, r.ACRM, want, want2, oldOK && !newOK, newOK && !oldOK, headersOK)
 			}
 			if granted {
 				grants++
@@ -390,8 +424,8 @@ func runC09(x *Ctx) {
 		// adding a route meanwhile, either registration state is acceptable
 		seqReq = r.ID
 		_, fresh := r.serve(c09Build(sc, byID, false).c, nil)
-		okc := fresh == r.resp
-		if !okc && sc.AddRoute {
+		okc := oldOK && fresh == r.resp
+		if !okc && newOK {
 			_, fresh2 := r.serve(c09Build(sc, byID, true).c, nil)
 			okc = fresh2 == r.resp
 		}
